@@ -64,7 +64,12 @@ static Verdict run_c07(const Case &c)
         v.classes.push_back((uint64_t)c.geti("outoff") < len ? "result_buffer_overlaps_message" : "result_buffer_adjacent_to_message");
       }
       else
-        got = wapi::hash_string(alg, m);
+      {
+        int ao = (int)c.geti("addroff", 0);
+        if (ao)
+          v.classes.push_back("message_not_word_aligned");
+        got = wapi::hash_string(alg, m, ao);
+      }
       want = ref::hash(alg, m);
     }
     else
@@ -172,6 +177,8 @@ static Case gen_c07()
     long k = g::range(0, 5);
     c.seti("outoff", k == 0 ? 0 : k == 1 ? std::max(0L, L - hl) : k == 2 ? L : k == 3 ? std::max(0L, L - 1) : g::range(0, L + 1));
   }
+  else if (!file && g::coin(45))
+    c.seti("addroff", g::range(1, 8)); // the message starts at an address that is not word aligned
   c.set("pseed", std::to_string(g::u64()));
   c.seti("pstyle", g::range(0, 10) < 8 ? 0 : g::range(1, 4));
   return c;
